@@ -126,3 +126,32 @@ pub open spec fn env_unset_n(e: EnvList, cur: EnvList, n: int) -> Seq<char> decr
 pub open spec fn env_text(e: Option<Vec<(OsString, OsString)>>) -> Seq<char> {
     match e { None => seq![], Some(v) => env_set_n(v@, process_env(), v@.len() as int) + env_unset_n(v@, process_env(), process_env().len() as int) }
 }
+
+// ---- the Debug impls: `Exec { <command line> }` and `Pipeline { <command line> | <command line> ... }`
+pub mod fmt {
+    use vstd::prelude::*;
+    // a Formatter is the text written to it so far
+    pub struct Formatter<'a> { pub out: Ghost<Seq<char>>, pub p: core::marker::PhantomData<&'a ()> }
+    pub struct Error;
+    pub type Result = core::result::Result<(), Error>;
+}
+pub open spec fn braced(name: Seq<char>, inner: Seq<char>) -> Seq<char> { name + seq![' ', '{', ' '] + inner + seq![' ', '}'] }
+// R6: `write!(f, "NAME {{ {} }}", inner)`: NAME, a blank, an opening brace, a blank, the text, a blank, a closing brace
+#[verifier::external_body]
+pub fn write_braced(f: &mut fmt::Formatter<'_>, name: &str, inner: &str) -> (r: fmt::Result)
+    ensures r is Ok ==> final(f).out@ == old(f).out@ + braced(name@, inner@), r is Err ==> true,
+{ unimplemented!() }
+// R6: `<[String]>::join(sep)`
+pub open spec fn join_n(v: Seq<Seq<char>>, sep: Seq<char>, n: int) -> Seq<char> decreases n {
+    if n <= 0 { seq![] } else if n == 1 { v[0] } else { join_n(v, sep, n - 1) + sep + v[n - 1] }
+}
+pub open spec fn views_of(v: Seq<String>) -> Seq<Seq<char>> { Seq::new(v.len(), |i: int| v[i]@) }
+#[verifier::external_body]
+pub fn join_strings(v: &Vec<String>, sep: &str) -> (r: String)
+    ensures r@ == join_n(views_of(v@), sep@, v@.len() as int)
+{ unimplemented!() }
+// the pipeline, reduced to the field its Debug impl reads
+pub struct Pipeline { pub cmds: Vec<Exec> }
+// the printable command line of one command (what to_cmdline_lossy is proved to return)
+pub open spec fn cmdline_text(e: Exec) -> Seq<char> { env_text(e.config.env) + quote_of(e.command.lossy()) + args_text(e.args@) }
+pub open spec fn texts_of(cmds: Seq<Exec>) -> Seq<Seq<char>> { Seq::new(cmds.len(), |i: int| cmdline_text(cmds[i])) }
